@@ -78,6 +78,9 @@ def srte_update(rng):
     v14 = {'afi_safi': [1, 73], 'nexthop': gen.ipv4(rng, 'rand'),
            'nlri': {'distinguisher': rng.choice(gen.U32), 'color': rng.choice(gen.U32),
                     'endpoint': gen.ipv4(rng) if rng.random() < 0.7 else gen.ipv6(rng, rng.choice(['doc', 'rand', 'zero']))}}
+    if rng.random() < 0.2:
+        # the policy is withdrawn: MP_UNREACH_NLRI with the same NLRI
+        return {'attr': {15: {'afi_safi': [1, 73], 'withdraw': v14['nlri']}}}
     return {'attr': {1: 0, 2: [], 5: 100, 8: ['NO_ADVERTISE'], 14: v14, 16: [[779, rng.choice(gen.U16)]], 23: tunnel_encaps(rng)}}
 
 
